@@ -52,6 +52,7 @@ type fpLine struct {
 	FP       string   `json:"fp"`
 	Verdicts []string `json:"verdicts,omitempty"`
 	Replay   string   `json:"replay,omitempty"`
+	Out      string   `json:"out,omitempty"`
 }
 
 func sampleOf(c *Case, o *Obs) Sample {
@@ -165,7 +166,7 @@ func runMode(args []string) {
 			sum.Samples = append(sum.Samples, sampleOf(c, o))
 		}
 		if *fplog {
-			l := fpLine{T: "fp", ID: o.ID, FP: o.FP}
+			l := fpLine{T: "fp", ID: o.ID, FP: o.FP, Out: o.OutDigest}
 			if os.Getenv("VERIF_REPLAYCHECK") != "" && o.Invalid == "" {
 				// replay self-test: the run under test, re-executed from its recorded decision
 				// list, must produce the identical event log
